@@ -8,7 +8,7 @@ Delegates to inner command check.
 from __future__ import annotations
 
 from dippy.cli import Classification, HandlerContext
-from dippy.core.bash import bash_quote
+from dippy.core.bash import bash_join
 
 COMMANDS = ["xargs"]
 
@@ -114,5 +114,5 @@ def classify(ctx: HandlerContext) -> Classification:
         return Classification("ask", description="xargs (no command)")
 
     # Delegate to inner command check
-    inner_cmd = " ".join(bash_quote(t) for t in inner_tokens)
+    inner_cmd = bash_join(inner_tokens)
     return Classification("delegate", inner_command=inner_cmd)
